@@ -21,7 +21,11 @@ code that does not apply) at statement level on all, some or none of the destruc
 injected as review comments into `migrate diff` output) and at file level; the rebuild pattern WITHOUT the row copy
 (CREATE new_t with the same / more columns, DROP t, RENAME: drop-and-replace); files with Windows (CRLF) and mixed line
 endings, hand-written and `migrate diff` output converted the way an autocrlf checkout does; a virtual table (fts4 / fts3 /
-rtree) created in history and dropped in the window (evolution hand-written throughout).
+rtree) created in history and dropped in the window (evolution hand-written throughout); hand-written files that start
+with a UTF-8 byte order mark directly followed by a destructive / an additive first statement; hand-written files whose
+statements are wrapped in BEGIN TRANSACTION; .. END; / BEGIN; .. END; / BEGIN; .. COMMIT; / BEGIN TRANSACTION; .. COMMIT;.
+Pos is a byte offset (converted for BOM files); BEGIN .. END is ONE compound statement for Atlas' SQLite statement scanner,
+so a diagnostic anywhere inside such a block counts as "on the statement".
 
 Observation: `atlas migrate lint --dir file://migrations --dev-url sqlite://dev.db --latest N
 --format '{{ json . }}'` for every window N: exit status and Files[].Reports[].Diagnostics[].{Code,Pos,Text}.
